@@ -5221,6 +5221,11 @@ class Data_Ref(SequenceBase):
         :rtype: NoneType or (str, (obj, obj, ...))
 
         """
+        # A single part-ref is not matched here. Say so before matching it,
+        # otherwise it is matched twice (here and by Part_Ref afterwards)
+        # and the cost doubles with every level of nested references.
+        if "%" not in string_replace_map(string)[0]:
+            return None
         # Use SequenceBase as normal, then force no match when there is
         # only one entry in the sequence.
         result = SequenceBase.match(r"%", Part_Ref, string)
